@@ -9,6 +9,8 @@ import (
 	"fmt"
 	"hash/fnv"
 	"os"
+	"os/exec"
+	"path/filepath"
 	"sort"
 	"strconv"
 	"strings"
@@ -804,6 +806,29 @@ func runSpec(prop string) int {
 		n, samples := runTimedPops(rep)
 		cov["timed_blocking_pop_scenarios"] = n
 		cov["samples"] = append(cov["samples"].([]string), samples...)
+		// "each element goes to exactly one popper": the list and blocking-pop pairs of the
+		// interleaving explorer (engines/concmc, pairs.go) run as a second stage of this check
+		if bin := os.Getenv("VERIF_CONC_BIN"); bin != "" {
+			dir := os.Getenv("VERIF_SCRATCH")
+			if dir == "" {
+				dir = os.TempDir()
+			}
+			tmp := filepath.Join(dir, fmt.Sprintf("verif-sub-%d.json", os.Getpid()))
+			cmd := exec.Command(bin, "C09")
+			cmd.Env = append(os.Environ(), "VERIF_SUBREPORT="+tmp)
+			cmd.Stderr = os.Stderr
+			if err := cmd.Run(); err != nil {
+				fmt.Fprintln(os.Stderr, "seqmc: the concurrent stage of C09 failed to run:", err)
+				return 2
+			}
+			sub, err := rep.Import(tmp)
+			os.Remove(tmp)
+			if err != nil {
+				fmt.Fprintln(os.Stderr, "seqmc: cannot read the concurrent stage's report:", err)
+				return 2
+			}
+			cov["concurrent_stage"] = map[string]interface{}{"engine": "concmc", "schedules": sub["evaluations"], "preemption_bound": sub["preemption_bound"], "generated_pairs": sub["generated_pairs"], "race_pass_runs": sub["race_pass_runs"], "race_reports": sub["race_reports"], "exhaustive": sub["exhaustive"]}
+		}
 	}
 	return rep.Finish(cov, seqAssumptions)
 }
@@ -819,6 +844,7 @@ func runSpecInto(rep *ev.Report, prop, tier string, spec *Spec) map[string]inter
 	}
 	states, transitions, mutating, poisoned, observed := 0, 0, 0, 0, 0
 	crashes := 0
+	fixpoints := 0
 	exhaustive := true
 	depthDone := -1
 	var samples []string
@@ -869,7 +895,10 @@ func runSpecInto(rep *ev.Report, prop, tier string, spec *Spec) map[string]inter
 
 		for depth := 0; depth <= spec.Depth; depth++ {
 			if len(frontier) == 0 {
+				// no unexplored state is left: every state reachable with this alphabet has been
+				// expanded, whatever the program length
 				depthDone = depth
+				fixpoints++
 				break
 			}
 			expand := depth < spec.Depth
@@ -997,6 +1026,7 @@ func runSpecInto(rep *ev.Report, prop, tier string, spec *Spec) map[string]inter
 		"exhaustive":                    exhaustive,
 		"depth_completed":               depthDone,
 		"depth_target":                  spec.Depth,
+		"fixpoint_reached":              fixpoints == len(variants),
 		"alphabet_size":                 len(spec.Alphabet),
 		"seeds":                         len(spec.Seeds),
 		"mutating_transitions":          mutating,
